@@ -334,7 +334,7 @@ REGISTRY["C09"] = {
     "obligations": [
         M("c09_timeout_flag_propagates", "whole function, all paths; callees uninterpreted", "the flag operand of GatheringTask::on_finish equals the timed_out parameter on every path; on_finish is reached on every returning path", BS[:1], prop="c09", which="flag"),
         M("c09_verdict_function", "whole function; response loop unrolled 2x; callees uninterpreted", "finish_ok => errors == 0 and not timed_out; finish_failure => errors > 0 or timed_out; exactly one of them on every returning path", BS[1:], prop="c09", which="verdict"),
-        M("c09_gatherer_accounting", "whole function; arbitrary counters and status", "at most one of ok/errors is written per message, each as old+1; the message is pushed to the response log on every path", BS[:1], prop="c09", which="gatherer"),
+        M("c09_gatherer_accounting", "whole function; arbitrary counters and status", "at most one of ok/errors is written per message, each as old+1; the message is pushed to the response log on every path; has_finished is exactly ok + errors >= expected_responses (archived Processing notices do not count)", BS[:1], prop="c09", which="gatherer"),
     ],
 }
 
@@ -410,6 +410,7 @@ REGISTRY["C12"] = {
         M("c12_inc_connections_step", "arbitrary (status, active_connections)", "count +1 exactly on Normal backends, untouched otherwise", BK[:1], prop="c12", which="counters", fn="inc_connections"),
         M("c12_dec_connections_step", "arbitrary (status, active_connections)", "never below zero; -1 exactly when positive and not Closed; Closing reaching zero becomes Closed, nothing else changes the status", BK[:1], prop="c12", which="counters", fn="dec_connections"),
         M("c12_candidate_filters", "the three candidate-set closures, all inputs symbolic", "available_backends keeps exactly backends with backup == requested tier && can_open(); the fail-open filter keeps exactly status == Normal && can_try() == Some(OKAY) and never consults health; find_sticky returns the sticky match iff can_open()", BK[:1], prop="c12", which="filters"),
+        M("c12_readd_updates_role", "whole BackendList::add_backend; backend fields symbolic", "re-adding an existing (backend_id, address) stores the new backup flag (taken from the re-added backend) and refreshes sticky id and load-balancing parameters; every path inserts or updates", BK[:1], prop="c12", which="readd"),
         M("c12_cascade_skeleton", "whole next_available_backend_with_key; emptiness of each tier symbolic (is_empty consistent on an unchanged vector)", "primary tier asked first (backup=false), backup tier only when it is empty, fail-open set only when both are empty, the policy is asked exactly once on the first non-empty tier, never on an empty one", BK[:1], prop="c12", which="cascade"),
     ],
 }
